@@ -10,8 +10,8 @@ LIVENESS IS PROVED IN THE REQUEST/RESPONSE ABSTRACTION: a round = "the node answ
 handles the answer". Goroutine scheduling, sockets and timers are not in the model; the rig exercises them.
 
 Proved for ALL chains, caps, checkpoint lists, initial prefixes, random picks:
-  * `C06_linear`     closed loop on a linear chain: from New + the first peer, after at most (missing headers + 1) rounds
-                     the loop is quiescent and the table is exactly the node's chain with its last header as the tip —
+  * `C06_linear`     closed loop on a linear chain: from New + the first peer, after at most
+                     ⌈missing / cap⌉ + |checkpoints| + 1 rounds the loop is quiescent and the table is exactly the node's chain with its last header as the tip —
                      any cap ≥ 1, any ascending checkpoint list the chain contains, checkpoints enabled (or disabled
                      once the F4a switch is flipped), initial store = genesis or any prefix;
   * `C06_checkpoint_cursor` + `C06_cursor_round`  throughout that loop nextCheckpoint is the first checkpoint above the tip
@@ -45,13 +45,15 @@ variable {H : Type} [DecidableEq H]
     `C06_linear_disabled_counterexample`): the same without the hypothesis `hen`.
     Closed loop engine × conformant node over a linear chain `C = done ++ rest` of new, clean, positive-work headers on
     the genesis row `g`, the table holding `done`: after New and the announcement of the peer (advertising height |C|)
-    one request is out, and after at most |rest| + 1 rounds the loop is quiescent with the table synced to `C`. -/
+    one request is out, and after at most ⌈|rest| / cap⌉ + |checkpoints| + 1 rounds the loop is quiescent with the table
+    synced to `C` (every round is a full reply, or ends on a checkpoint, or brings the last missing header; one more
+    round for the empty answer). -/
 theorem C06_linear (cfg : Sync.Cfg H) (g : Row H) (C : List (Src H)) (n : Node H) (p pick : Nat)
     (hs : LinSetup cfg g C n) (hg : g.st = .lc) (hg0 : g.height = 0) (done rest : List (Src H)) (hsplit : C = done ++ rest)
     (hen : cfg.disableCp = false ∨ f4aFixed = true) :
     ∃ req k st',
       (newPeer cfg (new cfg (run cfg.chain [g] done)) p true (C.length : Int) pick).2 = [.getheaders p req.1 req.2] ∧
-      k ≤ rest.length + 1 ∧
+      k ≤ (rest.length + n.cap - 1) / n.cap + cfg.checkpoints.length + 1 ∧
       rounds cfg n p k ((newPeer cfg (new cfg (run cfg.chain [g] done)) p true (C.length : Int) pick).1, some req) = (st', none) ∧
       SyncedTo cfg.chain g C st'.store := by
   have hsub : ∀ x ∈ done, x ∈ C := fun x hx => by rw [hsplit]; exact List.mem_append_left _ hx
@@ -65,8 +67,9 @@ theorem C06_linear (cfg : Sync.Cfg H) (g : Row H) (C : List (Src H)) (n : Node H
     (fun x hx => hs.work x (hsub x hx))
   rw [hg0, Nat.zero_add] at hth
   obtain ⟨req, hact, hinv⟩ := lin_start hs p pick done rest hsplit _ t0 htop hth hthash hmap hen
-  obtain ⟨k, st', hk, hr, hsync⟩ := lin_rounds hs rest.length _ done rest req rfl hinv
-  exact ⟨req, k, st', hact, hk, hr, hsync⟩
+  obtain ⟨k, st', hk, hr, hsync⟩ := lin_rounds_tight hs _ _ done rest req rfl hinv
+  have := potential_le cfg n.cap rest.length done.length
+  exact ⟨req, k, st', hact, by omega, hr, hsync⟩
 
 /-- throughout linear catch-up the cursor is the first checkpoint above the tip height: a member of the list above the
     tip, the lowest such — and `none` only when no checkpoint lies above the tip -/
@@ -89,7 +92,9 @@ theorem C06_checkpoint_cursor (cfg : Sync.Cfg H) (g : Row H) (C : List (Src H)) 
 theorem C06_cursor_round (cfg : Sync.Cfg H) (g : Row H) (C : List (Src H)) (n : Node H) (p : Nat) (st : State H)
     (done rest : List (Src H)) (req : List H × H) (hs : LinSetup cfg g C n) (hi : LinInv cfg g C p st done rest req)
     (hne : rest ≠ []) :
-    ∃ B rest' req', rest = B ++ rest' ∧ B ≠ [] ∧ B.length ≤ n.cap ∧ reply cfg.chain.hashOf n req.1 req.2 = B ∧
+    ∃ B rest' req', rest = B ++ rest' ∧ B ≠ [] ∧ B.length ≤ n.cap ∧
+      (B.length = n.cap ∨ rest' = [] ∨ ∃ c, st.nextCp = some c ∧ (done ++ B).length = c.1) ∧
+      reply cfg.chain.hashOf n req.1 req.2 = B ∧
       (handleHeaders cfg st p B).2 = [.getheaders p req'.1 req'.2] ∧
       LinInv cfg g C p (handleHeaders cfg st p B).1 (done ++ B) rest' req' :=
   lin_round hs hi hne
@@ -101,10 +106,11 @@ theorem C06_cursor_round (cfg : Sync.Cfg H) (g : Row H) (C : List (Src H)) (n : 
 theorem C06_disabled_unrequested (cfg : Sync.Cfg H) (st : State H) (p : Nat) (q : PeerSt H) (hs : List (Src H))
     (hq : lookup st.peers p = some q) (hin : q.inMap = true) (hd : q.disc = false) (hf : st.headersFirst = false) :
     (handleHeaders cfg st p hs).2 = [.disconnect p] ∧ (handleHeaders cfg st p hs).1.store = st.store := by
-  obtain ⟨_, ha⟩ := disconnectPeer_connected hq hd
-  unfold handleHeaders
-  rw [hq]
-  simp only [hin, hf, Bool.not_true, Bool.not_false, Bool.false_eq_true, if_false, if_true]
+  have hq1 : lookup (onHeadersReceived st.peers p) p = some (headersSeen q) := lookup_onHeadersReceived hq
+  obtain ⟨_, ha⟩ := disconnectPeer_connected hq1 (by rw [headersSeen_disc]; exact hd)
+  unfold handleHeaders handleHeadersCore
+  simp only [hq1]
+  simp only [headersSeen_inMap, hin, hf, Bool.not_true, Bool.not_false, Bool.false_eq_true, if_false, if_true]
   refine ⟨?_, ?_⟩ <;> first | exact ha | rfl | trivial
 
 /-- New with checkpoints disabled leaves headersFirstMode at the F4a switch, and startSync does not set it -/
@@ -268,26 +274,54 @@ theorem C06_tick_keeps_exhausted_peer (cfg : Sync.Cfg H) (st : State H) (sp pick
     (stale : Bool) (hs : st.syncPeer = some sp) (hq : lookup st.peers sp = some q) (ht : getTip st.store = some best)
     (heq : max q.lastBlock q.startHeight = (best.height : Int)) :
     tick cfg st stale pick = (st, []) := by
+  have hex : exhausted q best.height = true := by
+    unfold exhausted
+    split
+    · exact decide_eq_true (by omega)
+    · exact decide_eq_true heq
   unfold tick
   rw [hs]
   cases stale with
   | false => rfl
-  | true => simp only [Bool.not_true, Bool.false_eq_true, if_false, ht, hq, heq, if_true]
+  | true => simp only [Bool.not_true, Bool.false_eq_true, if_false, ht, hq, hex, if_true]
 
-/-- (F4d, for ALL states) once our tip is ABOVE everything the sync peer advertised, the stale tick disconnects it -/
+/-- (F4d, for ALL states; under the switch) once our tip is ABOVE everything the sync peer advertised, the stale tick
+    disconnects it -/
 theorem C06_tick_drops_passed_peer (cfg : Sync.Cfg H) (st : State H) (sp pick : Nat) (q : PeerSt H) (best : Row H)
+    (hsw : f4dFixed = false)
     (hs : st.syncPeer = some sp) (hq : lookup st.peers sp = some q) (ht : getTip st.store = some best)
     (hlt : max q.lastBlock q.startHeight < (best.height : Int)) (hin : q.inMap = true) (hd : q.disc = false) :
     ∃ rest, (tick cfg st true pick).2 = .disconnect sp :: rest := by
-  have hne : ¬ (max q.lastBlock q.startHeight = (best.height : Int)) := by omega
+  have hex : exhausted q best.height = false := by
+    unfold exhausted
+    rw [hsw]
+    simp only [Bool.false_eq_true, if_false]
+    exact decide_eq_false (by omega)
   obtain ⟨_, ha⟩ := disconnectPeer_connected hq hd
   unfold tick
   rw [hs]
-  simp only [Bool.not_true, Bool.false_eq_true, if_false, ht, hq, hne, hin]
+  simp only [Bool.not_true, Bool.false_eq_true, if_false, ht, hq, hex, hin]
   unfold updateSyncPeer
   rw [hs]
   simp only [ha]
   exact ⟨_, rfl⟩
+
+/-- with the F4d repair the watchdog keeps a sync peer we are ahead of -/
+theorem C06_tick_keeps_passed_peer (cfg : Sync.Cfg H) (st : State H) (sp pick : Nat) (q : PeerSt H) (best : Row H)
+    (stale : Bool) (hsw : f4dFixed = true)
+    (hs : st.syncPeer = some sp) (hq : lookup st.peers sp = some q) (ht : getTip st.store = some best)
+    (hle : max q.lastBlock q.startHeight ≤ (best.height : Int)) :
+    tick cfg st stale pick = (st, []) := by
+  have hex : exhausted q best.height = true := by
+    unfold exhausted
+    rw [hsw]
+    simp only [if_true]
+    exact decide_eq_true hle
+  unfold tick
+  rw [hs]
+  cases stale with
+  | false => rfl
+  | true => simp only [Bool.not_true, Bool.false_eq_true, if_false, ht, hq, hex, if_true]
 
 /-! ### non-vacuity and counterexamples: a concrete chain over `H := Nat` (toy hash `nonce + 1`) -/
 
@@ -307,6 +341,7 @@ theorem exSetup (disabled : Bool) (cap : Nat) (hc : 1 ≤ cap) : LinSetup (exCfg
   nodup := by cases disabled <;> decide
   clean := by cases disabled <;> decide
   work := by decide
+  zeroFresh := by cases disabled <;> decide
   asc := by cases disabled <;> (unfold Asc; decide)
   consistent := by
     intro c hc
@@ -333,12 +368,12 @@ theorem C06_linear_disabled_counterexample : f4aFixed = false →
       ((newPeer (exCfg true) (new (exCfg true) [C01.exRoot]) 7 true 4 0).1, some ([1000], 0))).2 = none ∧
     (rounds (exCfg true) (exNode 3) 7 1
       ((newPeer (exCfg true) (new (exCfg true) [C01.exRoot]) 7 true 4 0).1, some ([1000], 0))).1.store = [C01.exRoot] ∧
-    ¬ SyncedTo (exCfg true).chain C01.exRoot exChain [C01.exRoot] := by
-  intro _
-  refine ⟨by decide, by decide, by decide, ?_⟩
-  intro h
-  have := h.1
-  simp [exChain] at this
+    [C01.exRoot].map (·.hash) ≠ C01.exRoot.hash :: exChain.map (exCfg true).chain.hashOf := by
+  decide
+
+/-- … while `SyncedTo` demands exactly that equality of the hash column -/
+example (s : Store Nat) (h : SyncedTo (exCfg true).chain C01.exRoot exChain s) :
+    s.map (·.hash) = C01.exRoot.hash :: exChain.map (exCfg true).chain.hashOf := h.1
 
 /-- for arbitrary event sequences the cursor is NOT always the first checkpoint above the tip. Checkpoints at heights
     1 and 2; a headers message with the headers of heights 1, 2, 3 (a conformant answer to a request WITHOUT stop hash,
